@@ -69,6 +69,25 @@ run() {
     C15-m11) extra="C16" ;;
     C19-m12) extra="C05" ;;
     C20-m12) extra="C16" ;;
+    C01-m13) extra="C07 C08" ;;
+    C02-m13) extra="C07" ;;
+    C02-m14|C07-m13) extra="C02 C07" ;;
+    C03-m14) extra="C16" ;;
+    C05-m13|C11-m13) extra="C10 C09" ;;
+    C05-m14) extra="C13" ;;
+    C06-m13) extra="C05 C19" ;;
+    C06-m14) extra="C15 C07" ;;
+    C07-m14) extra="C08 C15" ;;
+    C10-m14) extra="C09" ;;
+    C11-m14) extra="C09" ;;
+    C12-m13|C12-m14) extra="C18" ;;
+    C13-m13) extra="C18 C09" ;;
+    C13-m14) extra="C11 C05" ;;
+    C14-m13) extra="C02" ;;
+    C14-m14) extra="C12 C18" ;;
+    C16-m14) extra="C15" ;;
+    C18-m13) extra="C13" ;;
+    C18-m14) extra="C16" ;;
   esac
   [ -n "${MATRIX_OWN:-}" ] && extra=""   # own check only
   grep -q "^$s check=$own " /tmp/mx/matrix.txt 2>/dev/null && [ -n "${MATRIX_RESUME:-}" ] && return 0
